@@ -130,14 +130,14 @@ def fold( e, env=None ):
             f_ = _env_get( env, key )
             if f_ is not NoFold and callable( f_ ):
                 return f_( *[ fold( a, env ) for a in e.args ] )
-    if isinstance( e, ast.Call ) and isinstance( e.func, ast.Attribute ) and env is not None and not e.keywords:
+    if isinstance( e, ast.Call ) and isinstance( e.func, ast.Attribute ) and env is not None and all( k.arg for k in e.keywords ):
         # a method the rule put into the environment under its dotted name ( 'self._back.pop' ): a marking stand-in, evaluated on the folded arguments
         from .core import dotted as _dotted
         d_ = _dotted( e.func )
         if d_ is not None:
             f_ = _env_get( env, d_ )
             if f_ is not NoFold and callable( f_ ):
-                return f_( *[ fold( a, env ) for a in e.args ] )
+                return f_( *[ fold( a, env ) for a in e.args ], **{ k.arg: fold( k.value, env ) for k in e.keywords } )
     if isinstance( e, ast.Call ) and isinstance( e.func, ast.Name ) and e.func.id in _SAFE_BUILTINS and _SAFE_BUILTINS[e.func.id] is not None and not e.keywords:
         args = [ fold( a, env ) for a in e.args ]
         try:
